@@ -14,7 +14,7 @@ from props.c02 import collect_simple
 from props.c16 import digit
 
 LEVEL = 'model_checking'
-SHAPES = ['arbitrary-head-bytes', 'content-length-huge', 'chunk-size-huge', 'te-qvalues', 'many-headers']
+SHAPES = ['arbitrary-head-bytes', 'content-length-huge', 'chunk-size-huge', 'te-qvalues', 'many-headers', 'answer-kinds', 'repeated-rejections']
 HANDLERS = ['respond', 'drop', 'read1-respond', 'readall-respond', 'read1-drop']
 
 
@@ -31,6 +31,9 @@ def run(L, rep, tier, seed):
 
     def h(ctx):
         shape = SHAPES[ctx.choose(len(SHAPES), 'shape')]
+        if shape == 'repeated-rejections':
+            return rejections(ctx)
+        answer = None
         hd = HANDLERS[ctx.choose(len(HANDLERS), 'handler')] if shape in ('content-length-huge', 'chunk-size-huge') else 'respond'
         end = 'eof'
         if shape == 'arbitrary-head-bytes':
@@ -52,6 +55,13 @@ def run(L, rep, tier, seed):
             qn = [b'q', b'Q'][ctx.choose(2, 'qname')]
             te = b', '.join([b'a;' + qn + q, b'chunked;q=0.7', b'identity; ' + qn + (q if ctx.choose(2, 'two') else b'=0.5')])
             data = K(b'GET /a HTTP/1.1\r\nTE: ' + te + b'\r\n\r\n')
+        elif shape == 'answer-kinds':
+            # what the client chooses (method, version, TE) x what the application answers with: no combination may panic
+            meth = [b'GET', b'HEAD'][ctx.choose(2, 'method')]
+            ver = [b'HTTP/1.1', b'HTTP/1.0'][ctx.choose(2, 'version')]
+            te = [b'', b'TE: identity\r\n', b'TE: chunked\r\n'][ctx.choose(3, 'te')]
+            answer = [('data', 200), ('reader', 200), ('reader', 204), ('reader', 304), ('empty', 204), ('reader', 100)][ctx.choose(6, 'answer')]
+            data = K(meth + b' /a ' + ver + b'\r\nHost: h\r\n' + te + b'\r\n')
         else:
             nh = 24 if tier == 'quick' else 64
             data = K(b'GET /a HTTP/1.1\r\n')
@@ -89,6 +99,8 @@ def run(L, rep, tier, seed):
                             break
                 if hd.endswith('drop'):
                     cv.drop(cell.v)
+                elif answer is not None:
+                    cv.respond(cell.v, cv.response(answer[0], answer[1], b'0123456789'))
                 else:
                     cv.respond(cell.v)
             cv.settle()
@@ -103,6 +115,29 @@ def run(L, rep, tier, seed):
             ctx.check_always(z3.BoolVal(False), label, lambda m: dict(sc(m), panic=p.msg[:200], site=list(p.site or [])[-2:]))
             return None
         ctx.check_always(z3.BoolVal(True), 'no-panic', sc)
+        return True
+
+    def rejections(ctx):
+        """stack use must not grow with the number of requests a connection carries: the deepest call nesting reached while k
+        consecutive requests are rejected with 505 (the connection stays usable) is the same for k = 1 and k = 4 -- a retry by
+        recursion would overflow the stack of the connection thread (abort of the whole process) on a long enough pipeline"""
+        ctx.event('witness', 'repeated-rejections')
+        depth = {}
+        for k in (1, 4):
+            data = K(b'GET /r HTTP/2.0\r\nHost: h\r\n\r\n' * k + b'GET /ok HTTP/1.1\r\nHost: h\r\n\r\n')
+            cv = Conv(S, ctx, data, end='eof')
+            cv.it.max_depth = 0
+            rq = cv.next()
+            depth[k] = cv.it.max_depth
+            ok = rq is not None and rq is not PARKED
+            ctx.check_always(z3.BoolVal(ok), 'request-after-rejections-is-delivered', lambda m: {'kind': 'conversation', 'text': bytes(conc(x) for x in data).decode()})
+            if ok:
+                cv.respond(rq)
+            cv.settle()
+            cv.close()
+            cv.finish_close()
+        ctx.check_always(z3.BoolVal(depth[4] <= depth[1]), 'stack-depth-independent-of-the-number-of-rejected-requests',
+                         lambda m: {'kind': 'call-depth', 'deepest_call_nesting': depth, 'requests_rejected': [1, 4]})
         return True
 
     S.run('adversarial', h, witnesses=SHAPES, max_paths=60000,
